@@ -20,6 +20,8 @@ OBS = {'enc.encode': ['frames', 'seq', 'dev', 'stream', 'fresh', 'decoded'], 'de
        'obj.set': ['raw', 'get'], 'obj.load': ['raw', 'get'], 'obj.new': ['raw', 'get'], 'obj.setData': ['raw', 'get', 'views', 'valid', 'decoded', 'freshraw'],
        'st.update': ['snap', 'count', 'devlookup'], 'st.removeDev': ['snap', 'count'], 'st.removeIf': ['snap'],
        'val.copy': ['slots'], 'val.assign': ['slots'], 'val.move': ['slots'], 'val.eq': ['eq', 'eqrev', 'neq'], 'val.make': ['slots'],
+       'sys.emit': ['frames'], 'sys.deliver': ['out', 'snap', 'count', 'devlookup', 'frame'], 'sys.tecmp': ['out', 'snap', 'count'],
+       'sys.lose': ['frame', 'snap'], 'st.adopt': ['snap', 'count'],
        'vld.payload': ['views'], 'vld.message': ['pkt'], 'enc.setDev': ['seq', 'dev'], 'dec.recheck': ['now']}
 
 
@@ -60,6 +62,10 @@ def main():
              ('TraceDec', lambda p: stages.dec_anyhist('quick', 3, p), 20), ('TraceObj', lambda p: stages.obj_builds('quick', 3, p), 40),
              ('TraceStatus', lambda p: stages.st_random('quick', 3, p), 3), ('TraceVal', lambda p: stages.val_random('quick', 3, p), 40),
              ('TraceValid', lambda p: stages.vld_random('quick', 3, p), 5)]
+    def sys_cases(p):
+        logp, _ = core.mc('MC_Sys', 'MC_Sys_walks.cfg', 'fz.sys', extra='-simulate num=3 -depth 45 -seed 3', workers=2)
+        core.dump_tree_cases(logp, 'st', 'fzsys-', p, per_episode=3000, extra=stages.ST_PROBE_SYS)
+    plans.append(('TraceSys', sys_cases, 2))
     bad = 0
     for k, (module, gen, neps) in enumerate(plans):
         cases = os.path.join(core.OUT, 'fz%d.cases' % k)
